@@ -180,7 +180,7 @@ BUILTIN_TYPES = ["str", "int", "bool", "float", "list", "dict", "tuple", "bytes"
 BUILTIN_ATTRS = {
     "str": {"split", "strip", "rstrip", "lstrip", "startswith", "endswith", "lower", "upper", "join",
             "replace", "encode", "isdigit", "format", "find", "partition", "splitlines", "count", "index",
-            "title", "capitalize", "isalpha", "isalnum", "zfill", "rsplit", "removeprefix", "removesuffix"},
+            "title", "capitalize", "splitlines", "isalpha", "isalnum", "zfill", "rsplit", "removeprefix", "removesuffix"},
     "bytes": {"decode", "split", "strip", "startswith", "endswith", "find", "replace"},
     "list": {"append", "extend", "pop", "copy", "index", "count", "insert", "remove", "reverse", "sort", "clear"},
     "tuple": {"index", "count"},
@@ -341,6 +341,39 @@ class State:
         return self.heap[name], self.has[name]
 
 
+_SYM_CACHE: Dict[int, frozenset] = {}
+
+
+def symbols_of(t) -> frozenset:
+    """names of the uninterpreted constants / functions occurring in t (cached per AST node id)"""
+    i = t.get_id()
+    r = _SYM_CACHE.get(i)
+    if r is not None:
+        return r
+    out = set()
+    seen = set()
+    stack = [t]
+    while stack:
+        x = stack.pop()
+        xi = x.get_id()
+        if xi in seen:
+            continue
+        seen.add(xi)
+        if z3.is_quantifier(x):
+            stack.append(x.body())
+            continue
+        if z3.is_app(x):
+            d = x.decl()
+            if d.kind() == z3.Z3_OP_UNINTERPRETED:
+                out.add(d.name())
+            stack.extend(x.children())
+    r = frozenset(out)
+    if len(_SYM_CACHE) > 200000:
+        _SYM_CACHE.clear()
+    _SYM_CACHE[i] = r
+    return r
+
+
 def has_quantifier(t) -> bool:
     seen = set()
     stack = [t]
@@ -369,6 +402,7 @@ class Interp:
         self.worklist = worklist
         self.solver = z3.Solver()
         self.solver.set("timeout", ctx.solver_timeout_ms)
+        self.solver_pcs: List[Any] = []
         self.counter = 0
         self.frames: List[Frame] = []
         self.frame_counter = 0
@@ -415,6 +449,7 @@ class Interp:
         self.st.pc.append(cond)
         if not has_quantifier(cond):
             self.solver.add(cond)
+            self.solver_pcs.append(cond)
 
     def assume_checked(self, cond):
         self.assume(cond)
@@ -423,10 +458,45 @@ class Interp:
             if r == z3.unsat:
                 raise PathEnd("assumption infeasible")
 
+    def _sliced(self, extra):
+        """Cone of influence: the ground path-condition conjuncts that (transitively) share a symbol with the
+        decision.  Dropping unrelated conjuncts only over-approximates feasibility (sound); it keeps a slow
+        theory (strings from one branch) from slowing every later, unrelated decision."""
+        rel = set()
+        for e in extra:
+            rel |= symbols_of(e)
+        if not rel:
+            return None
+        pcs = self.solver_pcs
+        syms = [symbols_of(c) for c in pcs]
+        included = [False] * len(pcs)
+        changed = True
+        n = 0
+        while changed:
+            changed = False
+            for k, sy in enumerate(syms):
+                if not included[k] and sy & rel:
+                    included[k] = True
+                    rel |= sy
+                    n += 1
+                    changed = True
+        if n * 10 > len(pcs) * 6:          # slice not much smaller than everything: use the incremental solver
+            return None
+        return [pcs[k] for k in range(len(pcs)) if included[k]]
+
     def _check(self, *extra):
         self.ctx.stats["feasibility_checks"] += 1
         t0 = time.time()
-        r = self.solver.check(*extra)
+        sl = self._sliced(extra) if (extra and len(self.solver_pcs) >= 12) else None
+        if sl is not None:
+            s2 = z3.Solver()
+            s2.set("timeout", self.ctx.solver_timeout_ms)
+            for c in sl:
+                s2.add(c)
+            r = s2.check(*extra)
+            self.ctx.stats["sliced_checks"] = self.ctx.stats.get("sliced_checks", 0) + 1
+        else:
+            r = self.solver.check(*extra)
         dt = time.time() - t0
         if r == z3.unknown:
             self.ctx.stats["feasibility_unknown"] += 1
@@ -483,6 +553,7 @@ class Interp:
     def _add_pc(self, cond):
         self.st.pc.append(cond)
         self.solver.add(cond)
+        self.solver_pcs.append(cond)
 
     def truth(self, v, label="") -> bool:
         """Python truthiness of a Val, decided on this path."""
